@@ -9,6 +9,7 @@ CONSTANTS
   InitStores <- CollStores
   PublishAfterUnlock = TRUE
   CreatedRevalidated = FALSE
+  SubSer = TRUE
 VIEW ViewNoHist
 INVARIANTS TypeOK CommitValid EffectOnce LoserCodes
 CHECK_DEADLOCK FALSE
